@@ -243,6 +243,34 @@ def model_arctan2(y, x, **kw):
     return out if out.shape else out[()]
 
 
+def model_maximum(a, b, **kw):
+    if not (is_obj(a) or is_obj(b) or isinstance(a, SYM) or isinstance(b, SYM)):
+        return _ORIG['maximum'](a, b, **kw)
+    import sys as _sys
+    from . import core as _core
+    fr = _sys._getframe(1)
+    in_distance = fr.f_code.co_name == 'distance' and 'geometry_tools' in fr.f_code.co_filename
+    aa, bb = np.broadcast_arrays(np.asarray(a, dtype=object), np.asarray(b, dtype=object))
+    out = np.empty(aa.shape, dtype=object)
+    for idx in np.ndindex(*aa.shape):
+        x, y = aa[idx], bb[idx]
+        if in_distance and isinstance(x, F) and not isinstance(y, SYM) and y == 1:
+            # Point.distance clamps |<x,y>| at 1 against rounding.  Over the reals |<x,y>| >= 1 for points of the closed ball (reverse
+            # Cauchy-Schwarz; proved by the solver in C01's "finite" goals for n <= 3), so the clamp is the identity: it is modelled as
+            # such, the fact is recorded as a definedness obligation (checked wherever a harness asks for `defined`) and as a tagged
+            # assumption of the path.  The binary64 behaviour of the clamp is the subject of the separate fp instance.
+            Ctx.cur.oblig.append(('ge1', x, 'hyperbolic.py distance (clamp)'))
+            c = (x >= 1)
+            if isinstance(c, _core.SymBool) and not Ctx.cur.meta.get('prove_lemmas'):
+                # C01's harnesses set prove_lemmas: there the fact is NOT assumed, it is the goal
+                Ctx.cur.assume(c, 'lemma: |<x,y>| >= 1 (reverse Cauchy-Schwarz, proved in C01)')
+            out[idx] = x
+            continue
+        lx, ly = (x if isinstance(x, SYM) else F.lift(x)), (y if isinstance(y, SYM) else F.lift(y))
+        out[idx] = lx if bool(lx >= ly) else ly
+    return out if out.shape else out[()]
+
+
 def _no_model(name):
     def f(a, *args, **kw):
         if is_obj(np.asarray(a)):
@@ -250,6 +278,44 @@ def _no_model(name):
         return _ORIG[name](a, *args, **kw)
     f.__name__ = f"model_{name}"
     return f
+
+
+def eigh_concrete(a, *args, **kw):
+    """eigh of an object matrix whose entries are all exact constants: computed with LAPACK in floats, snapped to small rationals
+    and verified exactly (B v = lambda v, orthonormal); anything else is inconclusive"""
+    a = np.asarray(a)
+    vals = np.empty(a.shape, dtype=float)
+    for idx in np.ndindex(*a.shape):
+        x = a[idx]
+        if isinstance(x, F):
+            if not x.is_const():
+                raise Inconclusive("no model for numpy.linalg.eigh on symbolic data")
+            x = x.const_value()
+        if isinstance(x, FC):
+            raise Inconclusive("no model for numpy.linalg.eigh on complex symbolic data")
+        vals[idx] = float(x)
+    w, U = _ORIG['eigh'](vals, *args, **kw)
+    Fr = fractions.Fraction
+
+    def snap(x):
+        f = Fr(float(x)).limit_denominator(64)
+        if abs(float(f) - float(x)) > 1e-10:
+            raise Inconclusive("eigh of a constant matrix with irrational eigen-data")
+        return f
+    wq = np.vectorize(snap, otypes=[object])(w)
+    Uq = np.vectorize(snap, otypes=[object])(U)
+    # exact verification
+    Bq = np.vectorize(lambda x: Fr(float(x)).limit_denominator(10 ** 9), otypes=[object])(vals)
+    n = vals.shape[-1]
+    for idx in np.ndindex(*vals.shape[:-2]):
+        B, Um, wm = Bq[idx], Uq[idx], wq[idx]
+        D = np.zeros((n, n), dtype=object)
+        for i in range(n):
+            D[i, i] = wm[i]
+        if not ((B @ Um == Um @ D).all() and (Um.T @ Um == np.array([[Fr(int(i == j)) for j in range(n)] for i in range(n)], dtype=object)).all()):
+            raise Inconclusive("snapped eigen-decomposition does not verify exactly")
+    lift = np.vectorize(lambda q: F.const(q), otypes=[object])
+    return lift(wq), lift(Uq)
 
 
 LINALG_OVERRIDES = {}     # name -> callable, installed by stubs (eig, eigh, svd) per harness
@@ -260,6 +326,9 @@ def _dispatch_linalg(name):
         h = LINALG_OVERRIDES.get(name)
         if h is not None:
             return h(a, *args, **kw)
+        if name == 'eigh' and is_obj(np.asarray(a)):
+            Ctx.cur.stub_calls.append('linalg.eigh:exact for constant matrices (LAPACK + rational snapping, verified exactly)')
+            return eigh_concrete(a, *args, **kw)
         return _no_model(name)(a, *args, **kw)
     f.__name__ = f"model_{name}"
     return f
@@ -271,7 +340,7 @@ _NP_PATCHES = {
     'real': model_real, 'imag': model_imag, 'isclose': model_isclose,
     'sqrt': _method_ufunc('sqrt'), 'cos': _method_ufunc('cos'), 'sin': _method_ufunc('sin'), 'arccosh': _method_ufunc('arccosh'),
     'arcsinh': _method_ufunc('arcsinh'), 'arccos': _method_ufunc('arccos'), 'arcsin': _method_ufunc('arcsin'), 'exp': _method_ufunc('exp'),
-    'sinh': _method_ufunc('sinh'), 'cosh': _method_ufunc('cosh'), 'tanh': _method_ufunc('tanh'), 'tan': _method_ufunc('tan'), 'arctan': _method_ufunc('arctan'), 'arctan2': model_arctan2,
+    'sinh': _method_ufunc('sinh'), 'cosh': _method_ufunc('cosh'), 'tanh': _method_ufunc('tanh'), 'tan': _method_ufunc('tan'), 'arctan': _method_ufunc('arctan'), 'arctan2': model_arctan2, 'maximum': model_maximum,
 }
 _LA_PATCHES = {
     'inv': model_inv, 'det': model_det, 'norm': model_norm,
